@@ -235,14 +235,15 @@ func c15Run(c *core.Ctx) {
 				opts = append(opts, func(a *app.App) { a.Configure.AddLoaders(l) })
 			}
 		}
-		// admissible values per path: files first (equal rank), then the others in added order
+		// the loader sequence: files first, in the order they were added (they share one rank and
+		// the sequence keeps equally ranked loaders in their added order), then the others in added
+		// order; per path the last supplier wins
 		admissible := map[string]map[string]bool{}
 		for _, p := range c15Paths {
-			adm := map[string]bool{}
 			last := ""
 			for _, e := range eff {
 				if v, ok := e.vals[p]; ok && e.file {
-					adm[v] = true
+					last = v
 				}
 			}
 			for _, e := range eff {
@@ -251,10 +252,7 @@ func c15Run(c *core.Ctx) {
 				}
 			}
 			if last != "" {
-				adm = map[string]bool{last: true}
-			}
-			if len(adm) > 0 {
-				admissible[p] = adm
+				admissible[p] = map[string]bool{last: true}
 			}
 		}
 		h := &c15Holder{}
